@@ -333,6 +333,7 @@ SPECS["C11"] = dict(
         rapid("TestC11Isolation", 250, 8000, sq=4, st=16),
         plain("TestC11KnownStaleFEC", sq=1, st=1),
         rapid("TestC11Backlog", 10, 150, sq=2, st=8),
+        rapid("TestC11Restart", 150, 4000, sq=2, st=8),
         rapid("TestC11RealUDP", 40, 1500, sq=2, st=8),
     ],
 )
